@@ -46,6 +46,9 @@ pub struct Sc {
 	/// the n-th `wait()` on the command fails once (a transient error while it is alive)
 	#[serde(default)]
 	pub wait_fault: Option<usize>,
+	/// the n-th `kill()` of the command fails once (the process stays alive)
+	#[serde(default)]
+	pub kill_fault: Option<usize>,
 }
 
 impl Sc {
@@ -189,7 +192,7 @@ pub fn run(sc: &Sc, bounds: Bounds, prefix: &[Point]) -> Result<Exec<Obs>, Strin
 		reaction: if sc.ignores { Reaction::Ignore } else { Reaction::ExitNow },
 		inert_signals: if sc.signals() { vec![10, 12, 15, 2] } else { vec![10, 12] },
 		spawn_fail_at: None,
-		op_fault: sc.wait_fault.map(|n| (simchild::FaultOp::Wait, n)),
+		op_fault: sc.wait_fault.map(|n| (simchild::FaultOp::Wait, n)).or(sc.kill_fault.map(|n| (simchild::FaultOp::Kill, n))),
 	});
 	fakewatcher::install();
 	let sc2 = sc.clone();
@@ -498,8 +501,21 @@ fn at_end(sc: &Sc, main_finished: bool, default_schedule: bool) {
 		let stop_wait_failed = f.log.iter().enumerate().any(|(i, r)| {
 			matches!(&r.ev, Ev::WaitErr { id, .. } if f.log[..i].iter().any(|x| matches!(&x.ev, Ev::Kill { id: c, .. } if c == id)))
 		});
-		if let Some(last) = f.changes.last().filter(|_| !stop_wait_failed) {
-			if !f.spawns.iter().any(|(p, _)| p > last) {
+		// likewise a forced kill that fails after the last change: that restart is lost for good
+		// reason (the next change, if any, must still be handled)
+		let last_kill_failed = f.changes.last().map_or(false, |last| f.log.iter().enumerate().any(|(i, r)| i > *last && matches!(&r.ev, Ev::Kill { ok: false, .. })));
+		if let Some(last) = f.changes.last().filter(|_| !stop_wait_failed && !last_kill_failed) {
+			// with an injected kill failure the run must come by itself, not only once the
+			// harness lets the surviving process end in its drain phase (a job task stuck in
+			// wait() after the failed kill would be released by that) — provided the last
+			// change left enough time before the horizon
+			let drain = f.log.iter().position(|r| matches!(r.ev, Ev::User { tag: "drain", .. })).unwrap_or(f.log.len());
+			let in_time = sc.kill_fault.is_none() || f.log[*last].t + 2 * sc.stop_timeout + 2 > sc.horizon;
+			let limit = if in_time { f.log.len() } else { drain };
+			if sc.kill_fault.is_some() && std::env::var_os("C05_DEBUG").is_some() {
+				eprintln!("DBG last={} t={} in_time={} drain={} spawns={:?} kills={:?}", last, f.log[*last].t, in_time, drain, f.spawns, f.log.iter().enumerate().filter(|(_, r)| matches!(r.ev, Ev::Kill { .. })).map(|(i, r)| (i, r.render())).collect::<Vec<_>>());
+			}
+			if !f.spawns.iter().any(|(p, _)| p > last && *p < limit) {
 				push(
 					format!("C05/{}/no-run-after-last-change", if sc.restarts() { "restart" } else { "queue" }),
 					format!("last change at log {last}; no run started after it (runs at {:?})", f.spawns.iter().map(|(p, _)| *p).collect::<Vec<_>>()),
@@ -541,7 +557,7 @@ pub fn scenarios(tier: Tier) -> Vec<(Sc, Vec<Bounds>)> {
 					if (int || st == 0) && !(restart || matches!(mode, Mode::Signal)) {
 						continue;
 					}
-					let sc = Sc { mode, changes, ignores, postpone, stop_signal_int: int, stop_timeout: st, delay_run: delay, debounce: deb, horizon: st + deb + 2, wait_fault: None };
+					let sc = Sc { mode, changes, ignores, postpone, stop_signal_int: int, stop_timeout: st, delay_run: delay, debounce: deb, horizon: st + deb + 2, wait_fault: None, kill_fault: None };
 					let base_variant = !postpone && !int && st == 2 && !delay && deb == 0;
 					let passes: Vec<Bounds> = match (tier, changes) {
 						(Tier::Quick, 1) => [both(0), both(1)].concat(),
@@ -567,6 +583,16 @@ pub fn scenarios(tier: Tier) -> Vec<(Sc, Vec<Bounds>)> {
 						for n in 1..=6usize {
 							let mut f = sc.clone();
 							f.wait_fault = Some(n);
+							out.push((f, both(0)));
+						}
+						// a failing forced kill (the command ignores the stop signal and survives
+						// the kill attempt): that restart may be lost, the next change must still
+						// be handled
+						if restart && ignores && changes == 2 {
+							let mut f = sc.clone();
+							f.kill_fault = Some(1);
+							f.changes = 3;
+							f.horizon = 3 * (st + 2);
 							out.push((f, both(0)));
 						}
 					}
